@@ -1026,6 +1026,13 @@ Proof.
   apply no_ub_bind; [exact IH|]. intros b _. nub.
 Qed.
 
+Lemma cell_triples_no_ub edges faces hfs : Forall (hok (len faces)) hfs -> no_ub (cell_triples edges faces hfs).
+Proof.
+  induction 1 as [|h t Hh Ht IH]; simpl; [nub|].
+  apply no_ub_bind; [apply hf_halfedges_no_ub; exact Hh|]. intros a _.
+  apply no_ub_bind; [exact IH|]. intros b _. nub.
+Qed.
+
 Lemma upd_nth_forall (P : Z -> Prop) i x l : P x -> Forall P l -> Forall P (upd_nth i x l).
 Proof.
   intros Hx. revert i. induction l as [|h t IH]; intros i Hl; destruct i; simpl; try constructor; inversion Hl; subst; auto.
@@ -1130,7 +1137,9 @@ Proof.
   - destruct (len hfs =? 4); [|nub]. apply no_ub_bind; [apply all_valence_no_ub; exact H|]. intros ok _.
     destruct ok; cbn [negb]; [|nub]. destruct (o_check o); cbn [negb]; [|apply base_add_cell_no_ub; exact H].
     apply no_ub_bind; [apply cell_from_vertices_no_ub; exact H|]. intros vs _.
-    destruct (negb (count_distinct vs =? 4)); [nub|]. apply base_add_cell_no_ub; exact H.
+    destruct (negb (count_distinct vs =? 4)); [nub|].
+    apply no_ub_bind; [apply cell_triples_no_ub; exact H|]. intros ts _.
+    destruct (negb (count_distinct_sets ts =? 4)); [nub|]. apply base_add_cell_no_ub; exact H.
   - destruct (len hfs =? 6) eqn:E6; [|nub]. apply Z.eqb_eq in E6.
     assert (Hne : hfs <> []) by (intros ->; rewrite len_nil in E6; lia).
     apply no_ub_bind; [apply all_valence_no_ub; exact H|]. intros ok Hok.
@@ -1672,6 +1681,7 @@ Proof.
   - destruct (len hs =? 4); [|discriminate]. apply bind_ret_inv in H. destruct H as [ok [_ H]].
     destruct ok; cbn [negb] in H; [|discriminate]. destruct (o_check o); cbn [negb] in H; [|eapply base_add_cell_stored; eassumption].
     apply bind_ret_inv in H. destruct H as [vs [_ H]]. destruct (negb (count_distinct vs =? 4)); [discriminate|].
+    apply bind_ret_inv in H. destruct H as [ts [_ H]]. destruct (negb (count_distinct_sets ts =? 4)); [discriminate|].
     eapply base_add_cell_stored; eassumption.
   - destruct (len hs =? 6); [|discriminate]. apply bind_ret_inv in H. destruct H as [ok [_ H]].
     destruct ok; cbn [negb] in H; [|discriminate]. rewrite Hp in H. cbn [negb] in H.
@@ -1689,6 +1699,7 @@ Proof.
   - destruct (len hs =? 4); [|discriminate]. intros E. apply bind_ret_inv in E. destruct E as [ok [_ E]].
     destruct ok; cbn [negb] in E; [|discriminate]. destruct (o_check o); cbn [negb] in E; [|apply base_add_cell_stored in E; subst; exact H].
     apply bind_ret_inv in E. destruct E as [vs [_ E]]. destruct (negb (count_distinct vs =? 4)); [discriminate|].
+    apply bind_ret_inv in E. destruct E as [ts [_ E]]. destruct (negb (count_distinct_sets ts =? 4)); [discriminate|].
     apply base_add_cell_stored in E. subst. exact H.
   - destruct (len hs =? 6) eqn:E6; [|discriminate]. apply Z.eqb_eq in E6.
     assert (Hne : hs <> []) by (intros ->; rewrite len_nil in E6; lia).
